@@ -6,6 +6,7 @@ import (
 	"encoding/xml"
 	"fmt"
 	"math/rand"
+	"strconv"
 	"strings"
 	"sync"
 
@@ -30,6 +31,7 @@ type c06Pkt struct {
 	To   string `json:"to,omitempty"`
 	// iq only. Payload: "" (nil) | disco | items | version | roster (library builders)
 	// | disco0 | version0 | pubsub0 (zero values) | custom:<ns> | xml:<children> (parsed)
+	// | deep:<n> (generic payload nested n levels, generated from the depth only)
 	Payload string `json:"payload,omitempty"`
 	Any     bool   `json:"any,omitempty"`   // set the generic Any node (ignored for xml:)
 	Other   int    `json:"other,omitempty"` // which non-stanza packet
@@ -48,8 +50,12 @@ func init() { register(c06{}) }
 func (c06) ID() string    { return "C06" }
 func (c06) RunFn() string { return "run_C06" }
 func (c06) Workers() int  { return 8 }
+
+// Journal: the case in flight is written down first, so that an input that brings the process
+// down (a fatal error no recover can catch) is still named by the check.
+func (c06) Journal() bool { return true }
 func (c06) Rule() string {
-	return "random route tables (0-6 routes x 0-3 matchers among Packet/StanzaType/IQNamespaces, 1-3 arguments each, catch-all routes at random positions, duplicated and overlapping routes, arguments in mixed case, ASCII only because the model lower-cases ASCII) x one random packet (message/presence with assorted types incl. empty, *IQ of type get/set/result/error/other with payload nil / built by the library builders / zero-valued / custom namespace / parsed from XML, with or without a generic Any node, and 9 kinds of non-stanza packets; no SMAnswer), 0-2 pending IQ-result ids; distinct = distinct (matcher kinds and per-route verdict, packet class, pending hit); non-trivial = at least 2 routes and either a route other than the first is selected or nothing matches an IQ get/set"
+	return "random route tables (0-6 routes x 0-3 matchers among Packet/StanzaType/IQNamespaces, 1-3 arguments each, catch-all routes at random positions, duplicated and overlapping routes, arguments in mixed case, ASCII only because the model lower-cases ASCII) x one random packet (message/presence with assorted types incl. empty, *IQ of type get/set/result/error/other with payload nil / built by the library builders / zero-valued / custom namespace / parsed from XML (registered payload types, and types unknown to the registry such as ping / vCard / a mixed-case application namespace, which land in the generic Any node), with or without a generic Any node, and 9 kinds of non-stanza packets; no SMAnswer), 0-2 pending IQ-result ids (clashing with the ids of requests as well as of responses); namespace arguments aim at the payload namespace verbatim or in another letter case; corpus: an unmatched get whose generic payload is nested 400000 levels (generated from the depth); the recording Sender serialises what it is given, as Client.Send / Component.Send do; distinct = distinct (matcher kinds and per-route verdict, packet class, pending hit); non-trivial = at least 2 routes and either a route other than the first is selected or nothing matches an IQ get/set"
 }
 
 // ---- packets -------------------------------------------------------------------------
@@ -92,6 +98,14 @@ func c06Build(d c06Pkt) stanza.Packet {
 			iq.Payload = &stanza.PubSubGeneric{}
 		case strings.HasPrefix(d.Payload, "custom:"):
 			iq.Payload = &c06Payload{ns: d.Payload[len("custom:"):]}
+		case strings.HasPrefix(d.Payload, "deep:"):
+			// what the decoder yields for <x xmlns='urn:example:deep'><a><a>...</a></a></x>, n levels
+			n, _ := strconv.Atoi(d.Payload[len("deep:"):])
+			node := stanza.Node{XMLName: xml.Name{Space: "urn:example:deep", Local: "a"}}
+			for i := 0; i < n; i++ {
+				node = stanza.Node{XMLName: xml.Name{Space: "urn:example:deep", Local: "a"}, Nodes: []stanza.Node{node}}
+			}
+			iq.Any = &stanza.Node{XMLName: xml.Name{Space: "urn:example:deep", Local: "x"}, Nodes: []stanza.Node{node}}
 		case strings.HasPrefix(d.Payload, "xml:"):
 			var parsed stanza.IQ
 			src := "<iq xmlns='jabber:client' type='get' id='p'>" + d.Payload[len("xml:"):] + "</iq>"
@@ -119,7 +133,8 @@ type c06Facts struct {
 	id, fr, to string
 	hasPayload bool
 	ns         string
-	any        bool
+	any        bool   // the generic Any node is set (payload of a type the registry does not know)
+	anyNs      string // its namespace
 }
 
 func c06FactsOf(p stanza.Packet) c06Facts {
@@ -130,6 +145,9 @@ func c06FactsOf(p stanza.Packet) c06Facts {
 		return c06Facts{kind: 1, typ: string(v.Type), id: v.Id, fr: v.From, to: v.To}
 	case *stanza.IQ:
 		f := c06Facts{kind: 2, typ: string(v.Type), id: v.Id, fr: v.From, to: v.To, any: v.Any != nil}
+		if v.Any != nil {
+			f.anyNs = v.Any.XMLName.Space
+		}
 		if v.Payload != nil {
 			f.hasPayload, f.ns = true, v.Payload.Namespace()
 		}
@@ -340,7 +358,7 @@ func (c06) Input(inp interface{}) Sx {
 	case 0, 1:
 		p = L(Zi(f.kind), c06Attrs(f.typ, f.id, f.fr, f.to))
 	case 2:
-		p = L(Z(2), c06Attrs(f.typ, f.id, f.fr, f.to), Opt(f.hasPayload, SBytes(f.ns)), B(f.any))
+		p = L(Z(2), c06Attrs(f.typ, f.id, f.fr, f.to), Opt(f.hasPayload, SBytes(f.ns)), Opt(f.any, SBytes(f.anyNs)))
 	default:
 		p = L(Z(3), Zi(in.Pkt.Other%len(c06Others)))
 	}
@@ -374,7 +392,19 @@ func c06Accepts(ms []c06Matcher, f c06Facts) bool {
 				ok = c06InList(m.A, t)
 			}
 		case "ns":
-			ok = f.kind == 2 && f.hasPayload && c06InList(m.A, f.ns)
+			// the namespace of the IQ's payload, typed or generic, compared verbatim
+			// (namespace names are case-sensitive)
+			if f.kind == 2 && (f.hasPayload || f.any) {
+				ns := f.ns
+				if !f.hasPayload {
+					ns = f.anyNs
+				}
+				for _, a := range m.A {
+					if a == ns {
+						ok = true
+					}
+				}
+			}
 		}
 		if !ok {
 			return false
@@ -404,7 +434,7 @@ func c06Expect(in c06In, f c06Facts) c06Want {
 		}
 	}
 	w.verdicts = vb.String()
-	if f.kind == 2 {
+	if f.kind == 2 && (f.typ == "result" || f.typ == "error") { // only a response can answer a pending request
 		for _, id := range in.Pending {
 			if id == f.id {
 				w.pendingHit = true
@@ -441,8 +471,11 @@ func (c06) Oracle(inp interface{}, obs Sx) (string, string) {
 		}
 		return "", ""
 	}
+	if len(deliv) != 0 && f.kind == 2 && (f.typ == "get" || f.typ == "set") {
+		return fmt.Sprintf("IQ %s request whose id %q equals the id of a pending SendIQ request was handed to that request as its response (%d handlers ran, %d replies sent)", f.typ, f.id, len(log), len(sent)), "request-taken-for-response"
+	}
 	if len(deliv) != 0 || len(left) != len(in.Pending) {
-		return "packet without a pending id touched the IQ-result table", "pending-spurious"
+		return "packet that answers no pending request touched the IQ-result table", "pending-spurious"
 	}
 	if w.first >= 0 {
 		if len(log) != 1 {
@@ -573,12 +606,15 @@ var (
 	c06TypeArgs = []string{"chat", "CHAT", "normal", "Normal", "error", "Error", "get", "GET", "set", "Set", "result", "RESULT",
 		"unavailable", "subscribe", "", "groupchat", "headline", "probe", "bogus"}
 	c06NsArgs = []string{stanza.NSDiscoInfo, "HTTP://JABBER.ORG/protocol/disco#info", "http://jabber.org/protocol/disco#items",
-		"jabber:iq:version", "JABBER:IQ:VERSION", "Jabber:Iq:Roster", "jabber:iq:roster", "", "urn:custom", "urn:Custom", "URN:X", "urn:other"}
+		"jabber:iq:version", "JABBER:IQ:VERSION", "Jabber:Iq:Roster", "jabber:iq:roster", "", "urn:custom", "urn:Custom", "URN:X", "urn:other",
+		"urn:xmpp:ping", "vcard-temp", "urn:example:MyApp:Orders", "urn:example:myapp:orders", "urn:any", "urn:Custom:NS", "urn:x"}
 	c06Payloads = []string{"", "", "disco", "items", "version", "roster", "disco0", "version0", "pubsub0",
 		"custom:urn:custom", "custom:urn:Custom", "custom:", "custom:urn:x", "custom:jabber:iq:version",
 		"xml:<query xmlns='jabber:iq:version'/>", "xml:<query xmlns='http://jabber.org/protocol/disco#info'><feature var='a'/></query>",
 		"xml:<foo xmlns='urn:Custom:NS'/>", "xml:<query xmlns='jabber:iq:version'/><foo xmlns='urn:x'>t</foo>",
-		"xml:<query xmlns='JABBER:IQ:VERSION'/>", "xml:", "xml:<query xmlns='jabber:iq:roster'><item jid='a@b'/></query>"}
+		"xml:<query xmlns='JABBER:IQ:VERSION'/>", "xml:", "xml:<query xmlns='jabber:iq:roster'><item jid='a@b'/></query>",
+		"xml:<ping xmlns='urn:xmpp:ping'/>", "xml:<vCard xmlns='vcard-temp'/>", "xml:<order xmlns='urn:example:MyApp:Orders'><n>1</n></order>",
+		"custom:urn:example:MyApp:Orders", "xml:<getForm xmlns='urn:xmpp:iot:control'/>", "deep:40"}
 	c06Ids  = []string{"", "1", "abc", "id-7", "1"}
 	c06Jids = []string{"", "a@b/c", "srv.example", "Romeo@Montague.lit/Orchard", "é@x"}
 )
@@ -653,7 +689,24 @@ func c06GenMatcher(r *rand.Rand, f c06Facts) c06Matcher {
 		}
 		return c06Matcher{K: "type", A: args(c06TypeArgs, t, f.kind != 3)}
 	default:
-		return c06Matcher{K: "ns", A: args(c06NsArgs, f.ns, f.hasPayload)}
+		// namespaces are compared verbatim: aim at the payload's namespace exactly, or (one time
+		// in four) at a differently-cased spelling of it, which names another namespace
+		ns := f.ns
+		if !f.hasPayload {
+			ns = f.anyNs
+		}
+		n := 1 + r.Intn(3)
+		out := make([]string, n)
+		for i := range out {
+			out[i] = c06NsArgs[r.Intn(len(c06NsArgs))]
+		}
+		if fit && (f.hasPayload || f.any) {
+			if r.Intn(4) == 0 {
+				ns = c06MixCase(r, ns)
+			}
+			out[r.Intn(n)] = ns
+		}
+		return c06Matcher{K: "ns", A: out}
 	}
 }
 
@@ -676,9 +729,14 @@ func (c06) Gen(r *rand.Rand, tier string) []interface{} {
 		c06In{Routes: [][]c06Matcher{{pm("type", "")}}, Pkt: c06Pkt{Kind: "presence"}},      // but it is of an untyped presence
 		c06In{Routes: [][]c06Matcher{{pm("ns", "")}}, Pkt: c06Pkt{Kind: "iq", Type: "set", Id: "2", Payload: "disco0"}},
 		c06In{Routes: [][]c06Matcher{{pm("ns", "")}}, Pkt: c06Pkt{Kind: "iq", Type: "set", Id: "2", From: "x", To: "y"}},
-		c06In{Routes: [][]c06Matcher{{pm("ns", "urn:Custom")}}, Pkt: c06Pkt{Kind: "iq", Type: "get", Id: "3", Payload: "custom:urn:Custom"}}, // upper-case namespace never matches
+		c06In{Routes: [][]c06Matcher{{pm("ns", "urn:Custom")}}, Pkt: c06Pkt{Kind: "iq", Type: "get", Id: "3", Payload: "custom:urn:Custom"}},                                                                                                     // namespaces are case-sensitive: matches verbatim
+		c06In{Routes: [][]c06Matcher{{pm("ns", "urn:custom")}, {}}, Pkt: c06Pkt{Kind: "iq", Type: "get", Id: "3", Payload: "custom:urn:Custom"}},                                                                                                 // and only verbatim
+		c06In{Routes: [][]c06Matcher{{pm("packet", "iq"), pm("type", "get"), pm("ns", "urn:xmpp:ping")}, {}}, Pkt: c06Pkt{Kind: "iq", Type: "get", Id: "ping1", From: "a@b/c", To: "srv.example", Payload: "xml:<ping xmlns='urn:xmpp:ping'/>"}}, // payload type unknown to the registry
+		c06In{Routes: [][]c06Matcher{{pm("ns", "urn:xmpp:ping")}}, Pkt: c06Pkt{Kind: "iq", Type: "set", Id: "p2", From: "a", To: "b", Payload: "xml:<vCard xmlns='vcard-temp'/>"}},
 		c06In{Routes: [][]c06Matcher{{pm("packet", "")}}, Pkt: c06Pkt{Kind: "other", Other: 2}},
-		c06In{Routes: [][]c06Matcher{{pm("packet", "iq")}}, Pending: []string{"1"}, Pkt: get}, // pending id wins over routes
+		c06In{Routes: [][]c06Matcher{{pm("packet", "iq")}}, Pending: []string{"1"}, Pkt: get},                                                             // a request carrying the id of a pending request is still a request
+		c06In{Routes: [][]c06Matcher{{pm("packet", "message")}}, Pending: []string{"1"}, Pkt: get},                                                        // ... and unmatched, is answered
+		c06In{Routes: [][]c06Matcher{{pm("packet", "iq")}}, Pending: []string{"1"}, Pkt: c06Pkt{Kind: "iq", Type: "error", Id: "1", From: "srv.example"}}, // a response with a pending id goes to the request
 		c06In{Routes: [][]c06Matcher{{pm("packet", "iq")}}, Pending: []string{"1"}, Pkt: c06Pkt{Kind: "message", Id: "1"}},
 		c06In{Routes: [][]c06Matcher{{pm("packet", "message")}}, Pending: []string{"2", "1"}, Pkt: c06Pkt{Kind: "iq", Type: "result", Id: "1"}},
 	}
